@@ -71,4 +71,32 @@ def idIndexed : List (String × Bool × String) := MJ.Gen.c06ActivationLocals.fi
 /-- the policy "wipe only when slot 0 is filled" (ids are handed out in order …) -/
 def wipeIfSlot0 : Cache → Bool := fun c => (c 0).isSome
 
+/-- events of a whole render: besides uses and parent switches, `call s` starts a NEW activation
+    on stream `s` (a block body, a `super()` definition, an included / imported template, a macro
+    body: each is an `eval_impl` of its own, with empty caches) and `ret` ends the innermost one -/
+inductive Ev2 where
+  | use (i : Nat)
+  | switch (parent : Stream)
+  | call (s : Stream)
+  | ret
+  deriving Repr
+
+/-- the activations of a render: the running one (`s`, `c`) and the suspended callers -/
+def run2 (wipe : Cache → Bool) : Stream → Cache → List (Stream × Cache) → List Ev2 → List (Option String)
+  | _, _, _, [] => []
+  | s, c, stk, .use i :: rest => (useId s c i).1 :: run2 wipe s (useId s c i).2 stk rest
+  | _, c, stk, .switch p :: rest => run2 wipe p (if wipe c then Cache.empty else c) stk rest
+  | s, c, stk, .call s' :: rest => run2 wipe s' Cache.empty ((s, c) :: stk) rest
+  | s, c, [], .ret :: rest => run2 wipe s c [] rest
+  | _, _, (s0, c0) :: stk, .ret :: rest => run2 wipe s0 c0 stk rest
+
+/-- the specification: the stream the innermost activation currently executes names the id -/
+def runSpec2 : Stream → List Stream → List Ev2 → List (Option String)
+  | _, _, [] => []
+  | s, stk, .use i :: rest => s[i]? :: runSpec2 s stk rest
+  | _, stk, .switch p :: rest => runSpec2 p stk rest
+  | s, stk, .call s' :: rest => runSpec2 s' (s :: stk) rest
+  | s, [], .ret :: rest => runSpec2 s [] rest
+  | _, s0 :: stk, .ret :: rest => runSpec2 s0 stk rest
+
 end MJ.BlocksAct
